@@ -50,21 +50,21 @@ CHECKS = {
             # the whole registry alphabet, two value types, colliding names
             cfg(name='registry', Depth=2, SeedIds=[0, 1, 2, 3, 6], Ops1=ALL14, Ops2=ALL14 + ['teardown'], OpsN=[]),
             # three entity kinds
-            cfg(name='kinds', Depth=2, SeedIds=[0, 5], Kinds=['V', 'HE', 'M'], Types=['int'], Names=['', 'a', 'b'],
-                MaxV=2, MaxE=1, Ops1=ALL14, Ops2=ALL14 + ['teardown'], OpsN=[]),
+            cfg(name='kinds', Depth=2, SeedIds=[0, 5, 7], Kinds=['V', 'HE', 'M'], Types=['int'], Names=['', 'a', 'b'],
+                MaxV=2, MaxE=1, NM=3, NS=8, MTypes=['poly', 'tpoly'], Ops1=ALL14, Ops2=ALL14 + ['teardown'], OpsN=[]),
             # destruction orders: handles / clear / mesh copies / mesh destruction, deeper
             cfg(name='lifetimes', Depth=3, SeedIds=[1, 2, 4], Kinds=['V'], Types=['int'], Names=['a'], Overwrite=True,
                 Ops1=LIFE, Ops2=LIFE, OpsN=['h_drop', 'mesh_destroy', 'clear', 'h_copy', 'mesh_assign', 'teardown']),
         ],
         thorough=[
             cfg(name='registry', Depth=3, SeedIds=[0, 1, 2, 3, 6], Names=['', 'a', 'b'], Ops1=ALL14, Ops2=ALL14, OpsN=ALL14 + ['teardown']),
-            cfg(name='kinds', Depth=3, SeedIds=[0, 5], Kinds=['V', 'HE', 'M'], Types=['int', 'bool'], Names=['', 'a'],
+            cfg(name='kinds', Depth=3, SeedIds=[0, 5, 7], Kinds=['V', 'HE', 'M'], Types=['int', 'bool'], Names=['', 'a'], NM=3, NS=8, MTypes=['poly', 'tpoly'],
                 Ops1=ALL14, Ops2=ALL14, OpsN=ALL14 + ['teardown']),
             cfg(name='lifetimes', Depth=5, SeedIds=[1, 2, 4], Kinds=['V'], Types=['int'], Names=['a'], Overwrite=True, NM=3, NS=9,
                 Ops1=LIFE, Ops2=LIFE, OpsN=['h_drop', 'mesh_destroy', 'clear', 'mesh_assign', 'teardown']),
         ],
-        sim=dict(ops=ALL14, SeedIds=[0, 1, 2, 3, 4, 5, 6], NM=3, NS=10, NH=4, Kinds=['V', 'HE', 'M'], Types=['int', 'bool'],
-                 Names=['', 'a', 'b'], MTypes=['poly', 'tet', 'hex'], MaxV=3, MaxE=2),
+        sim=dict(ops=ALL14, SeedIds=[0, 1, 2, 3, 4, 5, 6, 7], NM=3, NS=10, NH=4, Kinds=['V', 'HE', 'M'], Types=['int', 'bool'],
+                 Names=['', 'a', 'b'], MTypes=['poly', 'tet', 'hex', 'tpoly', 'ttet', 'thex'], MaxV=3, MaxE=2),
     ),
     'C13': dict(
         props=['C13'],
@@ -73,6 +73,10 @@ CHECKS = {
             # then every mutation of either side, then a second, narrower mutation
             cfg(name='copy-then-mutate', NM=3, NS=12, NH=4, Depth=3, SeedIds=[10, 11, 12, 13, 14, 15, 16], Kinds=['V'], Types=['int'], Names=['a'],
                 MTypes=['poly', 'tet', 'hex'], MaxV=5, MaxE=7, Ops1=COPY, Ops2=MUT13Q, OpsN=MUT13C),
+            # topology-only meshes (TopologyKernel, TetrahedralMeshTopologyKernel, HexahedralMeshTopologyKernel):
+            # copy construction, assignment and SELF assignment through the defaulted operator=, chains, mutations
+            cfg(name='topology-only', NM=3, NS=12, NH=4, Depth=3, SeedIds=[17, 18], Kinds=['V'], Types=['int'], Names=['a'],
+                MTypes=['tpoly'], MaxV=5, MaxE=7, Ops1=COPY + ['mesh_new'], Ops2=COPY + MUT13Q, OpsN=MUT13C),
             # chains of copies
             cfg(name='chains', NM=3, NS=12, NH=4, Depth=3, SeedIds=[10, 11, 13, 14], Kinds=['V'], Types=['int'], Names=['a'],
                 MTypes=['poly'], MaxV=5, MaxE=7, Ops1=COPY + ['mesh_new'], Ops2=COPY, OpsN=MUT13B),
@@ -86,14 +90,16 @@ CHECKS = {
                 MTypes=['poly', 'tet', 'hex'], MaxV=5, MaxE=7, Ops1=COPY, Ops2=MUT13Q, OpsN=MUT13C),
             cfg(name='copy-then-mutate-wide', NM=3, NS=12, NH=4, Depth=3, SeedIds=[10, 11, 12, 13, 14, 16], Kinds=['V', 'HE', 'M'], Types=['int', 'bool'], Names=['a'],
                 MTypes=['poly', 'tet', 'hex'], MaxV=5, MaxE=7, Ops1=COPY, Ops2=MUT13, OpsN=MUT13),
+            cfg(name='topology-only', NM=3, NS=12, NH=4, Depth=4, SeedIds=[17, 18], Kinds=['V', 'HE'], Types=['int'], Names=['a'],
+                MTypes=['tpoly', 'ttet', 'thex'], MaxV=5, MaxE=7, Ops1=COPY + ['mesh_new'], Ops2=COPY + MUT13, OpsN=['mesh_assign'] + MUT13C),
             cfg(name='chains', NM=3, NS=12, NH=4, Depth=4, SeedIds=[10, 11, 12, 13, 14, 15], Kinds=['V'], Types=['int'], Names=['a'],
                 MTypes=['poly', 'tet'], MaxV=5, MaxE=7, Ops1=COPY + ['mesh_new'], Ops2=COPY, OpsN=['mesh_assign'] + MUT13C),
             cfg(name='persistent-positions', NM=3, NS=12, NH=4, Depth=4, SeedIds=[10, 11, 12, 15], Kinds=['V'], Types=['int'], Names=['a'],
                 MTypes=['poly'], MaxV=5, MaxE=7, Ops1=['persist_pos', 'clear', 'pos_handle'], Ops2=COPY + ['persist_pos', 'set_shared', 'set_name', 'pos_handle'],
                 OpsN=['mesh_assign', 'set_vertex', 'add_vertex', 'mesh_destroy', 'persist_pos', 'write']),
         ],
-        sim=dict(ops=COPY + COPY + MUT13 + ['mesh_new', 'h_move', 'clear_all_props', 'persist_pos'], SeedIds=[10, 11, 12, 13, 14, 15, 16], NM=3, NS=14, NH=4,
-                 Kinds=['V', 'HE', 'M'], Types=['int', 'bool'], Names=['', 'a'], MTypes=['poly', 'tet', 'hex'], MaxV=6, MaxE=8),
+        sim=dict(ops=COPY + COPY + MUT13 + ['mesh_new', 'h_move', 'clear_all_props', 'persist_pos'], SeedIds=[10, 11, 12, 13, 14, 15, 16, 17, 18], NM=3, NS=14, NH=4,
+                 Kinds=['V', 'HE', 'M'], Types=['int', 'bool'], Names=['', 'a'], MTypes=['poly', 'tet', 'hex', 'tpoly', 'ttet', 'thex'], MaxV=6, MaxE=8),
     ),
 }
 
